@@ -110,6 +110,9 @@ def check(ctx):
             traj = binds["num_integration_steps"] == ("a", SELF, "num_integration_steps")
         elif "max_num_doublings" in extra:
             traj = extra["max_num_doublings"] == ("a", SELF, "max_treedepth")
+        elif "max_num_doublings" in binds:
+            # partial(kernel, max_num_doublings=...)(...) in its merged normal form
+            traj = binds["max_num_doublings"] == ("a", SELF, "max_treedepth")
         ctx.ob("C04.R2", st, "the blackjax kernel is built with the same log-density, the "
                              "kernel state's step size and inverse mass matrix, and the "
                              "kernel's trajectory-length setting", ok_b and traj is True,
